@@ -151,6 +151,79 @@ pub fn digest_main(args: &[String]) -> i32 {
     0
 }
 
+fn tiny(rng: &mut Rng, ptype: u8, tr: u8, w: usize, h: usize) -> Vec<u8> {
+    let mut cfg = crate::mon::ladder::cfg_for(rng, Flavour::Sor(0), w, h, 0);
+    cfg.tr = tr;
+    match ptype {
+        0 => crate::mon::ladder::large_intra(rng, &cfg).encode(),
+        1 => vector_field_picture(rng, &cfg, false).encode(),
+        _ => vector_field_picture(rng, &cfg, true).encode(),
+    }
+}
+
+fn ladder(ctx: &Ctx, rep: &mut Report) {
+    let mut rng = Rng::new(ctx.seed ^ 0xC17AD, 0);
+    // victim history: I, D, P, D, P on 32x32; between any two of its calls another instance decodes N pictures
+    let victim: Vec<Vec<u8>> = [0u8, 2, 1, 2, 1].iter().enumerate().map(|(i, t)| tiny(&mut rng, *t, 10 + i as u8, 32, 32)).collect();
+    let solo: Vec<u64> = {
+        let mut d = Dec::new(true, false);
+        victim.iter().map(|c| { let o = d.decode(c); digest_call(&d, &o) }).collect()
+    };
+    let other_i = tiny(&mut rng, 0, 1, 16, 16);
+    let other_p = tiny(&mut rng, 1, 2, 16, 16);
+    let other_d = tiny(&mut rng, 2, 3, 16, 16);
+    for n in [255usize, 256, 257, 65534, 65535, 65536, 65537] {
+        for gap in 0..4usize {
+            let mut v = Dec::new(true, false);
+            let mut o = Dec::new(true, false);
+            o.decode(&other_i);
+            let mut ok = true;
+            for (i, c) in victim.iter().enumerate() {
+                let out = v.decode(c);
+                if digest_call(&v, &out) != solo[i] {
+                    rep.violation("ladder/interleaved-long-run", format!("victim history call {} differs from its solo run when another instance decodes {} pictures after the victim's call {}", i, n, gap), J::obj().set("property", "C17").set("seed", ctx.seed).set("kind", "ladder"));
+                    ok = false;
+                    break;
+                }
+                if i == gap {
+                    // the other instance decodes exactly n pictures (mix of P and D) in between
+                    for j in 0..n {
+                        o.decode(if j % 2 == 0 { &other_p } else { &other_d });
+                    }
+                }
+            }
+            rep.evaluations += 1;
+            if ok {
+                rep.count("ladder_long_interleavings_equal");
+            }
+        }
+    }
+    // bystanders holding large pictures alive while a victim decodes
+    let big_cfg = crate::mon::ladder::cfg_for(&mut rng, Flavour::Sor(1), 4096, 2048, 0);
+    let big = crate::mon::ladder::large_intra(&mut rng, &big_cfg).encode();
+    let mut bystanders: Vec<Dec> = vec![];
+    for _ in 0..8 {
+        let mut b = Dec::new(true, false);
+        b.decode(&big);
+        bystanders.push(b);
+    }
+    let mut v = Dec::new(true, false);
+    let mut ok = true;
+    for (i, c) in victim.iter().enumerate() {
+        let out = v.decode(c);
+        if digest_call(&v, &out) != solo[i] {
+            rep.violation("ladder/bystanders-holding-large-pictures", format!("victim history call {} gives {} while 8 other instances hold 4096x2048 pictures, and something else when alone", i, out.short()), J::obj().set("property", "C17").set("seed", ctx.seed).set("kind", "ladder"));
+            ok = false;
+            break;
+        }
+    }
+    rep.evaluations += 1;
+    if ok {
+        rep.count("ladder_bystanders_equal");
+    }
+    drop(bystanders);
+}
+
 struct Event {
     thread: usize,
     replica: usize,
@@ -220,6 +293,12 @@ pub fn run(ctx: &Ctx) -> (Report, String) {
         } else {
             rep.count("reverse_order_pass_equal");
         }
+    }
+    // boundary ladder: an instance's history interleaved with a *long* run of pictures on another
+    // instance (process-wide counters that wrap after 2^8 / 2^16 events), and with bystander
+    // instances that keep large pictures alive (process-wide budgets)
+    if !miri && ctx.is_main() {
+        ladder(ctx, &mut rep);
     }
     // concurrent replicas
     let rounds = if miri { 1 } else { ctx.n(200, 3000) };
@@ -330,6 +409,8 @@ pub fn run(ctx: &Ctx) -> (Report, String) {
         rep.require("overlapping_call_pairs", 1000);
         rep.require("distinct_interleaving_signatures", 10);
         rep.require("fresh_process_digests_equal", 2);
+        rep.require("ladder_long_interleavings_equal", 28);
+        rep.require("ladder_bystanders_equal", 1);
         rep.require("isolated_baselines_equal", n_hist as u64);
         rep.require("reverse_order_pass_equal", 1);
     }
